@@ -61,10 +61,10 @@ def gen_cases(rnd, kind, n_per_fn, P=0, F=0):
     def arr(sh, **kw):
         return {'sh': list(sh), 'd': vals(sh, **kw)}
 
-    def add(fn, A, B=None, C=None, axis=0, k=0, k2=0):
-        if kind == 'fld' and fn not in FLD_OK:
+    def add(fn, A, B=None, C=None, axis=0, k=0, k2=0, axes=(), sign=1):
+        if kind == 'fld' and fn.replace('_t', '') not in FLD_OK:
             return
-        cases.append({'fn': fn, 'A': A, 'B': B or {'sh': [], 'd': [0]}, 'C': C or {'sh': [], 'd': [0]}, 'axis': axis, 'k': k, 'k2': k2,
+        cases.append({'fn': fn, 'A': A, 'B': B or {'sh': [], 'd': [0]}, 'C': C or {'sh': [], 'd': [0]}, 'axis': axis, 'k': k, 'k2': k2, 'axes': list(axes), 'sign': sign,
                       'how': rnd.choice(['conv', 'input']), 'kind': kind})
     pairs = [(a, b) for a in SHAPES for b in SHAPES if bshape(a, b) is not None and size(bshape(a, b)) <= 12]
     for fn in ELEM2:
@@ -102,6 +102,20 @@ def gen_cases(rnd, kind, n_per_fn, P=0, F=0):
             if fn in KEEPDIMS:
                 add(fn, arr([2, 2, 2]), axis=0, k2=1)
                 add(fn, arr([2, 3, 2]), axis=1, k2=1)
+    # reductions over a tuple of axes
+    for fn in ('sum', 'prod', 'all', 'any', 'amin', 'amax'):
+        for sh in rnd.sample([s_ for s_ in SHAPES if len(s_) >= 2], min(n_per_fn, 4)):
+            k_ = rnd.randint(2, len(sh))
+            axes = sorted(rnd.sample(range(len(sh)), k_), reverse=True)
+            if fn == 'prod':
+                if kind == 'fxp':
+                    continue
+                A = arr(sh, lo=-2, hi=2)
+            elif fn in ('all', 'any'):
+                A = {'sh': list(sh), 'd': [rnd.choice([0, 1, 1]) << (F if kind == 'fxp' else 0) for _ in range(size(sh))]}
+            else:
+                A = arr(sh)
+            add(fn + '_t', A, axes=axes, sign=rnd.choice([1, -1]))
     for fn in LANE:
         for sh in rnd.sample(nd, min(len(nd), n_per_fn)):
             ax = rnd.choice([NOAXIS] + list(range(-len(sh), len(sh))))
@@ -218,6 +232,10 @@ async def evaluator(mpc, c, idx, arg):
             return np.outer(a, b)
         if fn in ('sum', 'prod', 'all', 'any', 'amin', 'amax', 'argmin', 'argmax'):
             return getattr(np, fn)(a, axis=axis, keepdims=True) if k2 == 1 else getattr(np, fn)(a, axis=axis)
+        if fn.endswith('_t'):
+            # the same axes, given as negative numbers for sign = -1
+            tup = tuple(x if c['sign'] == 1 else x - a.ndim for x in c['axes'])
+            return getattr(np, fn[:-2])(a, axis=tup)
         if fn == 'cumsum':
             return getattr(np, fn)(a, axis=axis)
         if fn == 'sort':
@@ -265,7 +283,7 @@ async def evaluator(mpc, c, idx, arg):
         if a.dtype == bool:
             a = a.astype(int)
         flat = [v for v in a.flatten().tolist()]
-        if fn in ('lt', 'le', 'gt', 'ge', 'eq', 'ne', 'all', 'any', 'argmin', 'argmax'):
+        if fn in ('lt', 'le', 'gt', 'ge', 'eq', 'ne', 'all', 'any', 'argmin', 'argmax', 'all_t', 'any_t'):
             return {'sh': list(a.shape), 'd': [int(round(float(v))) if not hasattr(v, 'value') else int(v) for v in flat]}
         return {'sh': list(a.shape), 'd': [back(v) for v in flat]}
     out = {}
@@ -346,7 +364,7 @@ def np_events(job, col):
             r = rs[0]
             col.case((tag, c['fn'], str(c['A']), str(c['B']), c['axis'], c['k'], c['k2']))
             n_terms = {'matmul': (c['A']['sh'] or [1])[-1], 'prod': 2}.get(c['fn'], 1)
-            evs.append({'fn': c['fn'], 'A': c['A'], 'B': c['B'], 'C': c['C'], 'axis': c['axis'], 'k': c['k'], 'k2': c['k2'], 'kind': kind,
+            evs.append({'fn': c['fn'], 'A': c['A'], 'B': c['B'], 'C': c['C'], 'axis': c['axis'], 'axes': c['axes'], 'k': c['k'], 'k2': c['k2'], 'kind': kind,
                         'P': P or 1, 'F': F, 'tol': 2 * n_terms + 1, 'R': r['R'], 'N': r['N'], 'S': r['S'], 'cfg': tag, 'cls': shape_cls})
     return evs
 
